@@ -215,7 +215,7 @@ static void ob_create(H<T>& h)
     auto const r = hep::create_result<T>(N, N - 1, N - 2, E, S);
     h.check("C13|create_result.counters", h.truth(r.calls() == N && r.non_zero_calls() == N - 1 && r.finite_calls() == N - 2));
     h.check("C13|create_result.value_is_the_estimate", h.eq(r.value(), E));
-    h.check("C13|create_result.variance_is_the_squared_error", h.eq(r.variance(), S * S));
+    h.check("C02,C13|create_result.variance_is_the_squared_error", h.eq(r.variance(), S * S));
 }
 
 template <typename T>
